@@ -411,9 +411,10 @@ def check(pid, tier, seed):
                     if "from outside bubble" in tail:
                         agg["infra"].append("simulator limitation: a goroutine that outlived an earlier simulation touched a channel of a later one (worker %s, run %s):\n%s" % (w["tag"], cur, tail[-1500:]))
                         continue
-                    raced = "DATA RACE" in tail or "VERIF-BLOCKED-FOREVER" in tail
+                    raced = "DATA RACE" in tail
+                    stalled = "VERIF-BLOCKED-FOREVER" in tail
                     reproduced, tail2, out2 = False, "", None
-                    for attempt in range(3 if raced else 1):
+                    for attempt in range(3 if raced else (2 if stalled else 1)):
                         w2, out2 = one_shot(b["bin"], job, sscratch, w["tag"] + "-rerun", 1200, race=srace)
                         tail2 = open(w2["log"]).read()[-6000:]
                         if out2 is None or w2["rc"] != 0:
@@ -430,6 +431,13 @@ def check(pid, tier, seed):
                             rep = rep[rep.index("VERIF-BLOCKED-FOREVER"):]
                         gen = one_shot_gen(built, pid, tier, seed, cur, st.get("variant", ""), sscratch, race)
                         agg["violations"].append(dict(run=cur, **{"class": cls}, detail=(rep[:3500] if cls == "blocked-forever" else rep[-3500:]), plan=gen, fatal=True, replay_unstable=not reproduced, _b=b, _race=srace, _scratch=sscratch))
+                    elif stalled:
+                        # the watchdog fired but the same plan runs to completion alone (twice): the
+                        # process was starved or suspended, not blocked - a stall of the machine is
+                        # not a verdict and not a reason to fail the check
+                        log("WARNING: worker %s reported a stall on run %s that does not reproduce; ignored" % (w["tag"], cur))
+                        agg["notes"]["non-reproducible-stall-ignored"] = agg["notes"].get("non-reproducible-stall-ignored", 0) + 1
+                        merge(agg, stage, out2)
                     else:
                         agg["infra"].append("worker %s died (rc=%s) on run %s but the run alone passes:\n%s" % (w["tag"], w["rc"], cur, tail[-2000:]))
                         merge(agg, stage, out2)
